@@ -428,6 +428,11 @@ def explore(tier, seed):
             frontier = [h for h, k, sd in fresh_states]
             agg.extra['states_at_history_length_%d' % (level + 1)] = len(fresh_states)
     agg.states = len(seen)
+    reuse = instance_reuse()
+    agg.extra['instance_reuse_pairs_judged'] = len(RENDERERS) * 9 * 8
+    for rname, info in reuse.items():
+        agg.fail(dict(instance_reuse=True, renderer=rname, first=info['example'][0], second=info['example'][1]),
+                 'second-document-on-one-instance-differs:' + rname, detail='%d probe pairs differ' % info['pairs_that_differ'])
     agg.extra['closed'] = (not frontier)
     if frontier:
         agg.extra['frontier_left_at_bound'] = len(frontier)
@@ -436,8 +441,43 @@ def explore(tier, seed):
     return agg, rounds, nproc
 
 
+def instance_reuse():
+    """For which renderers does the SECOND document rendered by one instance (one context) come out differently from the
+    same document rendered by a fresh instance? ("the output ... is the same whatever was ... rendered before ...: other
+    documents"). 11 renderer configurations x 9 x 8 probe pairs."""
+    from mistletoe import Document
+    res = {}
+    for name, kw in RENDERERS:
+        n = 0
+        example = None
+        for d1 in PROBES[:8] + ['~~s~~ `c` ![i](/s) [l](/u)\n']:
+            for d2 in PROBES[:8]:
+                pristine.restore()
+                try:
+                    with configs.renderer_class(name)(**kw) as r:
+                        fresh_out = r.render(Document(d2))
+                    pristine.restore()
+                    with configs.renderer_class(name)(**kw) as r:
+                        r.render(Document(d1))
+                        second = r.render(Document(d2))
+                except Exception:
+                    continue
+                if second != fresh_out:
+                    n += 1
+                    example = example or [d1, d2]
+        if n:
+            res['%s%s' % (name, kw or '')] = dict(pairs_that_differ=n, example=example)
+    pristine.restore()
+    return res
+
+
 def replay(case):
     global _BASE
+    if case.get('instance_reuse'):
+        res = instance_reuse()
+        if case['renderer'] in res:
+            return dict(sig='second-document-on-one-instance-differs:' + case['renderer'], detail=json.dumps(res[case['renderer']])[:300])
+        return None
     pristine.restore()
     base = observe()
     hist = [tuple(op) for op in case['history']]
